@@ -81,6 +81,14 @@ Definition envelope_rows_ok : bool :=
                       && match cm_resp row with Some c => never_omitted c ["result"; "jsonrpc"] | None => true end) catalogue.
 Theorem C10_envelope_flags : envelope_rows_ok = true /\ length catalogue = length (requests mm) + length (notifications mm).
 Proof. vm_compute. split; reflexivity. Qed.
+(* ... and in EVERY class that has such an attribute at all, catalogue or not (the generic error envelope ResponseErrorMessage is
+   not a row of the method catalogue): `jsonrpc` and `method` are never omitted *)
+Definition envelope_attrs_bad : list (string * string) :=
+  flat_map (fun c => flat_map (fun f => if (String.eqb (fwireo f) "jsonrpc" || String.eqb (fwireo f) "method")
+                                            && negb (mem (fst c) (map s_name (structures mm))) && fomit f
+                                        then [(fst c, fwireo f)] else []) (snd c)) (classes Sg).
+Theorem C10_envelope_attributes_everywhere : envelope_attrs_bad = [].
+Proof. vm_compute. reflexivity. Qed.
 (* a field with omit_if_default off is written by every successful unstructuring (generic) *)
 Theorem C10_not_omittable_is_written : forall rec c c' fds vals j f,
   lookup_cls Sg c = Some fds -> NoDup (map fwireo fds) -> In f fds -> fomit f = false ->
@@ -100,4 +108,5 @@ Print Assumptions C10_key_rule.
 Print Assumptions C10_special_always_written.
 Print Assumptions C10_absent_special_reads_default.
 Print Assumptions C10_envelope_flags.
+Print Assumptions C10_envelope_attributes_everywhere.
 Print Assumptions C10_not_omittable_is_written.
